@@ -12,6 +12,9 @@ CLAIMED = {
  "C15": dict(technique="static analysis: file-set typestate — file-operation sequences extracted from SSA in program order per configuration, every crash prefix classified by the loader decision table (also extracted from SSA); ownership/provenance of the ordered fraction list; ordering/ack rules for the cache file",
              text="All crash prefixes of create/seal/release/suicide/loader-cleanup (abstract file sets, enumerated completely for the extracted sequences) are classified by the loader's own decision logic: never fatal, live fractions served, begun deletions finished. Plus structural rules for oldest-first retention and the atomic cache-file update. File contents and size accounting are not decided.",
              note="Trusted: go/ssa, the suffix/flag abstraction (a file is its suffix), the assumption that completed directory operations are not reordered by a crash; tables in checker/internal/props/c15.go, filemodel.go.", ref="§3 C15"),
+ "C09": dict(technique="static analysis: dominance (written-bit under err==nil), provenance (status slice of the called shard, index/replica of one iteration), error-flow, and a bounded path-sensitive simulation over SSA (phi resolution, nil-ness and integer-interval facts) deciding that no success return follows a failed last attempt in the shard loop and in the bounded retry loop",
+             text="Every path of the proxy's replication client is examined: a success report must be preceded by a successful last attempt per tier, written bits only follow successful sends to the same replica. This is the bookkeeping the property rests on; the remote side and the circuit library are summarised, not analysed.",
+             note="Trusted: go/ssa; summaries of cep21/circuit Execute and multierr.Combine; PATHSIM visits each block at most 3 times per path.", ref="§3 C09"),
 }
 
 NOT_YET = "check not built yet in this round (planned in DESIGN.md §3); nothing is claimed for it"
